@@ -27,12 +27,24 @@ func init() {
 
 var primSchema = &schema.Schema{Name: "prims"}
 
+// wireType maps the pseudo-primitive "bytes" (a byte array read with iohelp.ReadBytes: the
+// same wire form as a string, but handed out also after a failed read) to its wire type.
+func wireType(p string) string {
+	if p == "bytes" {
+		return "string"
+	}
+	return p
+}
+
+// c20Prims are the primitives of the multi-primitive streams.
+var c20Prims = append(append([]string{}, schema.Primitives...), "bytes")
+
 func primEncode(p string, v val.Value) []byte {
-	return refcodec.Encode(primSchema, schema.Type{Prim: p}, v)
+	return refcodec.Encode(primSchema, schema.Type{Prim: wireType(p)}, v)
 }
 
 func primWidth(p string, v val.Value) int {
-	if p == "string" {
+	if p == "string" || p == "bytes" {
 		return 4 + len(v.B)
 	}
 	return schema.PrimSize(p)
@@ -80,7 +92,7 @@ func writeStream(w *iohelp.ErrorWriter, p string, v val.Value) {
 	case "date":
 		// the generated code writes dates as int64 ticks
 		iohelp.WriteInt64(w, v.Date.Ticks())
-	case "string":
+	case "string", "bytes":
 		iohelp.WriteUint32(w, uint32(len(v.B)))
 		w.Write(v.B)
 	}
@@ -122,7 +134,7 @@ func writeSliceInto(buf []byte, p string, v val.Value) {
 		iohelp.WriteGUIDBytes(buf, guidArr(v.B))
 	case "date":
 		iohelp.WriteInt64Bytes(buf, v.Date.Ticks())
-	case "string":
+	case "string", "bytes":
 		iohelp.WriteUint32Bytes(buf, uint32(len(v.B)))
 		copy(buf[4:], v.B)
 	}
@@ -209,6 +221,8 @@ func readStream(r *iohelp.ErrorReader, p string) val.Value {
 		return dateValue(iohelp.ReadDate(r))
 	case "string":
 		return val.Value{B: []byte(iohelp.ReadString(r))}
+	case "bytes":
+		return val.Value{B: iohelp.ReadBytes(r)}
 	}
 	return val.Value{}
 }
@@ -252,7 +266,7 @@ func readSlice(buf []byte, p string) (val.Value, error) {
 		return val.Value{B: g[:]}, nil
 	case "date":
 		return dateValue(iohelp.ReadDateBytes(buf)), nil
-	case "string":
+	case "string", "bytes":
 		s, err := iohelp.ReadStringBytes(buf)
 		return val.Value{B: []byte(s)}, err
 	}
@@ -260,6 +274,7 @@ func readSlice(buf []byte, p string) (val.Value, error) {
 }
 
 func primDiff(p string, want, got val.Value) string {
+	p = wireType(p)
 	return val.Diff(primSchema, schema.Type{Prim: p}, val.Normalise(primSchema, schema.Type{Prim: p}, want), val.Normalise(primSchema, schema.Type{Prim: p}, got))
 }
 
@@ -287,11 +302,23 @@ func leU64(b []byte) uint64 {
 // taint alphabet (bool: true), so stale bytes are recognisable.
 func drawPrim(r *prng.Rand, g *val.Gen, p string, taint bool) val.Value {
 	if !taint {
-		return g.Type(schema.Type{Prim: p}, 0)
+		if p == "bytes" && r.Chance(1, 6) {
+			return val.Value{B: r.Bytes([]int{65535, 65536, 65537, 70000, 131072, 140001}[r.Intn(6)])}
+		}
+		return g.Type(schema.Type{Prim: wireType(p)}, 0)
 	}
 	switch p {
 	case "bool":
 		return val.Value{U: 1}
+	case "bytes":
+		if r.Chance(1, 3) {
+			// beyond 64 KiB the stream readers fetch a payload in several steps
+			return val.Value{B: taintBytes(r, []int{65535, 65536, 65537, 70000, 131072, 131073, 200000}[r.Intn(7)])}
+		}
+		if r.Chance(1, 4) {
+			return val.Value{B: taintBytes(r, []int{255, 256, 1023, 1024, 1025, 4096, 4097, 5000}[r.Intn(8)])}
+		}
+		return val.Value{B: taintBytes(r, r.Range(0, 6))}
 	case "string":
 		if r.Chance(1, 5) {
 			// threshold lengths: helpers may treat long strings differently
@@ -353,13 +380,13 @@ func runC20(c *Ctx) *Replay {
 	taint := true
 	base := Scenario{Kind: "prims"}
 	for i := 0; i < n; i++ {
-		p := schema.Primitives[c.R.Intn(len(schema.Primitives))]
+		p := c20Prims[c.R.Intn(len(c20Prims))]
 		base.Types = append(base.Types, p)
 		base.Values = append(base.Values, drawPrim(c.R, g, p, taint))
 	}
 	free := Scenario{Kind: "prims"}
 	for i := 0; i < n; i++ {
-		p := schema.Primitives[c.R.Intn(len(schema.Primitives))]
+		p := c20Prims[c.R.Intn(len(c20Prims))]
 		free.Types = append(free.Types, p)
 		free.Values = append(free.Values, drawPrim(c.R, g, p, false))
 	}
@@ -767,6 +794,15 @@ func execPrims(n *Node, sc *Scenario) *Violation {
 			for j := filled; j < len(gb); j++ {
 				if j >= 4 && tainted(gb[j]) {
 					return &Violation{Class: "stale", Signature: "stale|stream-reader|string", Detail: fmt.Sprintf("read %d (string) returned an undelivered tainted byte at %d", i, j)}
+				}
+			}
+		case "bytes":
+			// a byte array is handed out also after a failed read: what of it was delivered
+			// is the caller's to ignore, what was NOT delivered must not come from the stream
+			for j := filled; j < len(gb); j++ {
+				if j >= 4 && tainted(gb[j]) {
+					return &Violation{Class: "stale", Signature: "stale|stream-reader|bytes", Detail: fmt.Sprintf("read %d (byte array of %d) returned an undelivered stream byte at payload offset %d (the stream failed at payload offset %d)", i, len(got.B), j-4, filled-4),
+						Facts: map[string]string{"prim": p}}
 				}
 			}
 		default:
